@@ -441,3 +441,61 @@ func advances(v ssa.Value, phi *ssa.Phi, depth int) bool {
 	}
 	return false
 }
+
+// ---- C10.c: no input-driven recursion ---------------------------------------------------------------------------
+
+// checkNoUnguardedRecursion: a call-graph cycle inside the decode scope recurses once per input element (record,
+// nesting level); Go does not eliminate tail calls and a goroutine stack overflow is fatal, not a recoverable panic.
+// Every call that closes a cycle must carry a visited-set or depth guard (same criterion as C19.a).
+func checkNoUnguardedRecursion(p *Program, r *Result, scope map[*ssa.Function]bool) {
+	r.rule("C10.c", "no unguarded recursion in the decode scope", 1)
+	// cycles through statically resolved calls only: dynamic dispatch (error.Error, io.Writer.Write wrappers) is
+	// over-approximated by the call graph and does not recurse on the same object
+	static := func(f *ssa.Function) []*ssa.Function {
+		var out []*ssa.Function
+		for _, ci := range callsIn(f, func(ssa.CallInstruction) bool { return true }) {
+			if g := ci.Common().StaticCallee(); g != nil && scope[g] {
+				out = append(out, g)
+			}
+		}
+		return out
+	}
+	reaches := func(from, to *ssa.Function) bool {
+		seen := map[*ssa.Function]bool{}
+		st := []*ssa.Function{from}
+		for len(st) > 0 {
+			f := st[len(st)-1]
+			st = st[:len(st)-1]
+			if seen[f] {
+				continue
+			}
+			seen[f] = true
+			for _, g := range static(f) {
+				if g == to {
+					return true
+				}
+				st = append(st, g)
+			}
+		}
+		return false
+	}
+	n := 0
+	for _, fn := range sortedFuncs(scope) {
+		for _, ci := range callsIn(fn, func(ci ssa.CallInstruction) bool {
+			g := ci.Common().StaticCallee()
+			return g != nil && scope[g] && (g == fn || reaches(g, fn))
+		}) {
+			n++
+			construct := "recursive call to " + calleeLabel(p, ci)
+			if why := recursionGuard(fn, ci); why != "" {
+				r.held("C10.c", funcName(fn), construct, p.pos(ci.Pos()), why)
+			} else {
+				r.violated("C10.c", funcName(fn), construct, p.pos(ci.Pos()),
+					"the decode path recurses without a depth or visited-set guard; the depth is controlled by the input (one frame per skipped record / nesting level), and a stack overflow terminates the process")
+			}
+		}
+	}
+	if n == 0 {
+		r.held("C10.c", "mcap (decode scope)", "call graph", "", "no cycle of statically resolved calls among the functions reachable from the decode entry points")
+	}
+}
